@@ -21,14 +21,41 @@ if [ "${1:-}" = "--replay" ]; then
 	C18|C14T) variant=thr ;;
 	*) variant=asan ;;
 	esac
+	grep -q "^cfg assert_build 1" "$file" 2>/dev/null && variant=thrassert
 	build "$variant"
 	exec "$B/jsim-$variant" "$pid" "$@"
 fi
 
 case "$id" in
 C18)
+	# two batches: the shipped configuration (NDEBUG) and the assertion-enabled threaded build
 	build thr
-	exec "$B/jsim-thr" C18 "$@"
+	"$B/jsim-thr" C18 "$@"; rc1=$?
+	build thrassert
+	tier=quick; for x in "$@"; do [ "$x" = thorough ] && tier=thorough; done
+	[ "${VERIF_TIER:-}" = thorough ] && tier=thorough
+	extra="--evidence-name C18A --runs $([ $tier = thorough ] && echo 600000 || echo 20000)"
+	for x in "$@"; do [ "$x" = "--no-evidence" ] && extra="--runs $([ $tier = thorough ] && echo 600000 || echo 20000)"; done
+	"$B/jsim-thrassert" C18 "$@" $extra; rc2=$?
+	python3 - <<'PY'
+import json, os
+a, b = "/verif/evidence/C18.json", "/verif/evidence/C18A.json"
+try:
+    if os.path.exists(b):
+        ea, eb = json.load(open(a)), json.load(open(b))
+        cb = eb["coverage"]
+        ea["coverage"]["assert_enabled_batch"] = {k: cb[k] for k in ("evaluations", "distinct_nontrivial", "steps", "probes", "nontrivial_runs", "runs_per_hour", "violation_reports") if k in cb}
+        ea["coverage"]["assert_enabled_batch"]["configuration"] = "ENABLE_THREADING=ON, assertions enabled (no NDEBUG)"
+        ea["violations"] = int(ea.get("violations", 0)) + int(eb.get("violations", 0))
+        ea["wall_s"] = float(ea.get("wall_s", 0)) + float(eb.get("wall_s", 0))
+        json.dump(ea, open(a, "w"), indent=1)
+        os.remove(b)
+except Exception as ex:
+    print("note: could not merge assert-enabled evidence:", ex)
+PY
+	if [ $rc1 -eq 2 ] || [ $rc2 -eq 2 ]; then exit 2; fi
+	if [ $rc1 -ne 0 ] || [ $rc2 -ne 0 ]; then exit 1; fi
+	exit 0
 	;;
 C14)
 	# two batches: single-thread (ASan/UBSan binary) and multi-thread (thread simulator binary)
